@@ -26,6 +26,41 @@ type job struct {
 	cfg  string
 	data []byte
 	gen  func() []byte // lazily generated input (search): keeps the parent's memory bounded
+	grp  string        // optional group: after giveUpAfter failing inputs of a (kind, group) the rest of it is skipped
+}
+
+// giving up on a group: the failing inputs of one group all show the same defect, and each of them may cost a
+// multi-GiB allocation, a dead worker and a second (solitary) measurement
+const giveUpAfter = 3
+const skipped = "skip"
+
+type groupFails struct {
+	sync.Mutex
+	n map[string]int
+}
+
+var gfails = groupFails{n: map[string]int{}}
+
+func (g *groupFails) full(kind, grp string) bool {
+	if grp == "" {
+		return false
+	}
+	g.Lock()
+	defer g.Unlock()
+	return g.n[kind+":"+grp] >= giveUpAfter
+}
+
+func (g *groupFails) add(kind, grp string) {
+	if grp == "" {
+		return
+	}
+	g.Lock()
+	g.n[kind+":"+grp]++
+	g.Unlock()
+}
+
+func isFailure(res string) bool {
+	return strings.Contains(res, "panic") || strings.Contains(res, "hang") || strings.Contains(res, "overalloc")
 }
 
 func (j job) bytes() []byte {
@@ -285,8 +320,19 @@ func cmdWorker() {
 			fmt.Fprintf(w, "STAT %d %d %d\n", worst.ns, worst.n, worst.alloc)
 			w.Flush()
 		} else if line != "" {
-			f := strings.SplitN(line, " ", 3)
-			fmt.Fprintln(w, runJob(job{kind: f[0], cfg: f[1], data: hx.UnHex(f[2])}))
+			f := strings.SplitN(line, " ", 4)
+			j := job{kind: f[0], cfg: f[1], data: hx.UnHex(f[2])}
+			if len(f) > 3 {
+				j.grp = f[3]
+			}
+			r := skipped
+			if !gfails.full(j.kind, j.grp) {
+				r = runJob(j)
+				if isFailure(r) {
+					gfails.add(j.kind, j.grp)
+				}
+			}
+			fmt.Fprintln(w, r)
 			w.Flush()
 		}
 		if err != nil {
@@ -366,11 +412,21 @@ func runJobs(jobs []job, nproc int) []string {
 	wg.Wait()
 	// time / allocation classes are re-measured once, alone, so that scheduling noise of the parallel run
 	// is not reported as a finding; a reproducible hang or over-allocation keeps its class
+	// (a group that already has giveUpAfter confirmed failing inputs is not measured again: the others are skipped)
+	confirmed := map[string]int{}
 	for i, r := range res {
 		if strings.Contains(r, "hang") || strings.Contains(r, "overalloc") {
+			key := jobs[i].kind + ":" + jobs[i].grp
+			if jobs[i].grp != "" && confirmed[key] >= giveUpAfter {
+				res[i] = skipped
+				continue
+			}
 			one := make([]string, len(jobs))
-			runChunk(jobs, one, i, i+1)
+			runOne(jobs, one, i)
 			res[i] = one[i]
+			if isFailure(res[i]) {
+				confirmed[key]++
+			}
 			rstats.Lock()
 			rstats.remeasured++
 			rstats.Unlock()
@@ -381,17 +437,34 @@ func runJobs(jobs []job, nproc int) []string {
 
 const batch = 64
 
+// runOne: job i alone in a fresh worker, whatever its group's record
+func runOne(jobs []job, res []string, i int) {
+	j := jobs[i]
+	j.grp = ""
+	runChunk([]job{j}, res[i:i+1], 0, 1)
+}
+
 func runChunk(jobs []job, res []string, lo, hi int) {
 	p := startWorker()
 	defer func() { p.kill() }()
 	i := lo
 	for i < hi {
+		// jobs of a group that has been given up are answered here
+		if gfails.full(jobs[i].kind, jobs[i].grp) {
+			res[i] = skipped
+			i++
+			continue
+		}
 		var sb strings.Builder
 		budget := time.Duration(0)
 		e := i
-		for e < hi && e < i+batch && sb.Len() < 8<<20 {
+		for e < hi && e < i+batch && sb.Len() < 8<<20 && !gfails.full(jobs[e].kind, jobs[e].grp) {
 			d := jobs[e].bytes()
-			fmt.Fprintf(&sb, "%s %s %s\n", jobs[e].kind, jobs[e].cfg, hx.Hex(d))
+			fmt.Fprintf(&sb, "%s %s %s", jobs[e].kind, jobs[e].cfg, hx.Hex(d))
+			if jobs[e].grp != "" {
+				sb.WriteString(" " + jobs[e].grp)
+			}
+			sb.WriteByte('\n')
 			budget += 30 * timeBudget(len(d)) // a job is up to ~25 operations
 			e++
 		}
@@ -408,6 +481,9 @@ func runChunk(jobs []job, res []string, lo, hi int) {
 					break recv
 				}
 				res[k] = l
+				if isFailure(l) {
+					gfails.add(jobs[k].kind, jobs[k].grp)
+				}
 				k++
 			case <-deadline:
 				dead = "hang"
@@ -439,6 +515,7 @@ func runChunk(jobs []job, res []string, lo, hi int) {
 			if jobs[k].kind == "Q" {
 				res[k] = c + "\t-\t0\t0\t0"
 			}
+			gfails.add(jobs[k].kind, jobs[k].grp)
 			rstats.Lock()
 			rstats.restarts++
 			rstats.Unlock()
